@@ -1,6 +1,7 @@
 package main
 
 import (
+	"go/types"
 	"strings"
 
 	"golang.org/x/tools/go/ssa"
@@ -554,4 +555,116 @@ func flushBatchRule(o *Ob) (batch ssa.Value, resolved ssa.Value, nf ssa.CallInst
 		}
 	}
 	return batch, nil, nf
+}
+
+// flushContextRule: what a stage reads from the flush context is what the group put there.
+//
+//	(a) sibling agreement in notify/context.go: every WithX stores its argument under one key, no two setters share a
+//	    key, and the accessor that reads that key asserts the setter's type and returns what it read;
+//	(b) aggrGroup.run fills the context with the group's own key, labels, receiver, route id and marker.
+func flushContextRule(o *Ob) {
+	e := o.E
+	type setter struct {
+		fn  *ssa.Function
+		typ types.Type
+	}
+	setters := map[string]setter{} // key rendering → setter
+	names := map[string]string{}   // setter name → key
+	for _, fn := range e.allFuncs {
+		n := fnName(fn)
+		if !strings.HasPrefix(n, "am/notify.With") || strings.Contains(n, "$") || fn.Signature.Recv() != nil {
+			continue
+		}
+		cs := e.Calls(fn, "context.WithValue")
+		if len(cs) == 0 {
+			continue // not a context setter (e.g. an option constructor)
+		}
+		if !o.Check(len(cs) == 1 && len(fn.Params) == 2, "setter-shape|"+n, n+" must store exactly its one argument", fnFirst(fn)) {
+			continue
+		}
+		c := cs[0]
+		k := e.X(fn, c.Common().Args[1])
+		o.Site(c, n+" → key "+k)
+		o.Check(e.X(fn, c.Common().Args[0]) == "ctx" || e.X(fn, c.Common().Args[0]) == "p0", "setter-parent|"+n, n+" must extend the given context", c)
+		o.Check(e.X(fn, c.Common().Args[2]) == "p1", "setter-value|"+n, n+" must store its argument, stores "+e.X(fn, c.Common().Args[2]), c)
+		if prev, dup := setters[k]; dup {
+			o.Fail("setter-key-shared|"+n, n+" and "+fnName(prev.fn)+" store under the same context key "+k+": one overwrites the other", c)
+			continue
+		}
+		setters[k] = setter{fn, fn.Params[1].Type()}
+		names[n] = k
+		for _, ret := range (&Walk{Fn: fn}).FromEntry().Returns() {
+			o.Check(ret.Results[0] == ssa.Value(c.(*ssa.Call)), "setter-return|"+n, n+" must return the extended context", ret)
+		}
+	}
+	o.Check(len(setters) >= 12, "setters", "fewer context setters than the reference tree has ("+itoa(len(setters))+")", nil)
+	read := map[string]bool{}
+	defer func() {
+		for k, st := range setters {
+			if isNewFunc(st.fn) {
+				continue // a setter added after the reference tree: who reads it is not this rule's business
+			}
+			o.Check(read[k], "setter-unread|"+fnName(st.fn), "no accessor reads what "+fnName(st.fn)+" stores (key "+k+")", fnFirst(st.fn))
+		}
+	}()
+	for _, fn := range e.allFuncs {
+		n := fnName(fn)
+		if !strings.HasPrefix(n, "am/notify.") || strings.Contains(n, "$") || fn.Signature.Recv() != nil || fn.Signature.Params().Len() != 1 || fn.Signature.Results().Len() != 2 {
+			continue
+		}
+		var vc *ssa.Call
+		for _, in := range AllInstrs(fn) {
+			if c, ok := in.(*ssa.Call); ok && c.Call.IsInvoke() && c.Call.Method.Name() == "Value" && c.Call.Method.Pkg() != nil && c.Call.Method.Pkg().Path() == "context" {
+				vc = c
+			}
+		}
+		if vc == nil {
+			continue
+		}
+		k := e.X(fn, vc.Call.Args[0])
+		s, ok := setters[k]
+		if !o.Check(ok, "getter-key|"+n, n+" reads context key "+k+", which no setter writes", vc) {
+			continue
+		}
+		o.Check(!read[k], "getter-key-shared|"+n, n+" reads context key "+k+", which another accessor already reads: one of them reads the wrong key", vc)
+		read[k] = true
+		o.Site(vc, n+" ← key "+k+" ("+fnName(s.fn)+")")
+		var ta *ssa.TypeAssert
+		for _, r := range *vc.Referrers() {
+			if t, ok := r.(*ssa.TypeAssert); ok {
+				ta = t
+			}
+		}
+		if o.Check(ta != nil && ta.CommaOk, "getter-assert|"+n, n+" must type-assert what it read (comma-ok)", vc) {
+			o.Check(types.Identical(ta.AssertedType, s.typ), "getter-type|"+n, n+" asserts "+typeStr(ta.AssertedType)+" but "+fnName(s.fn)+" stores "+typeStr(s.typ)+": the value would never be found", ta)
+			for _, ret := range (&Walk{Fn: fn}).FromEntry().Returns() {
+				x0, ok0 := ret.Results[0].(*ssa.Extract)
+				x1, ok1 := ret.Results[1].(*ssa.Extract)
+				o.Check(ok0 && ok1 && x0.Tuple == ssa.Value(ta) && x1.Tuple == ssa.Value(ta) && x0.Index == 0 && x1.Index == 1, "getter-return|"+n, n+" must return what it read and whether it was there", ret)
+			}
+		}
+	}
+	// (b) the group's own identity
+	run := o.Fn("(*am/dispatch.aggrGroup).run")
+	for _, w := range []struct{ fn, want string }{
+		{"am/notify.WithGroupKey", "(*am/dispatch.aggrGroup).GroupKey(recv)"},
+		{"am/notify.WithGroupLabels", "recv.labels"},
+		{"am/notify.WithReceiverName", "recv.opts.Receiver"},
+		{"am/notify.WithRouteID", "recv.routeID"},
+	} {
+		c := o.One(e.Calls(run, w.fn), "flush|"+w.fn, "the flush context must be filled by "+w.fn, run)
+		o.Check(e.Arg(c, 1) == w.want, "flush-arg|"+w.fn, w.fn+" must get "+w.want+", gets "+e.Arg(c, 1), c)
+		o.Check(names[w.fn] != "", "flush-setter|"+w.fn, w.fn+" is not a context setter any more", c)
+	}
+	mc := o.One(e.Calls(run, "am/marker.WithContext"), "flush-marker", "the flush context must carry the alert marker", run)
+	o.Check(e.Arg(mc, 1) == "recv.marker", "flush-marker-arg", "the flush context must carry the group's marker", mc)
+	// the flush itself runs in that context
+	fl := e.Calls(run, "(*am/dispatch.aggrGroup).flush")
+	o.Check(len(fl) >= 1, "flush-call", "run no longer flushes", nil)
+}
+
+func init() {
+	desc := "context setters and accessors of notify/context.go agree pairwise on key and type; aggrGroup.run puts the group's own key, labels, receiver, route id and marker into the flush context"
+	reg("C06", "C06.11", "T9,T11", "a notification carries its own group's identity: "+desc, func(o *Ob) { flushContextRule(o); o.MinSites(20) })
+	reg("C04", "C04.15", "T9,T11", "the log key of a flush is its own group and receiver: "+desc, func(o *Ob) { flushContextRule(o); o.MinSites(20) })
 }
